@@ -209,6 +209,9 @@ func startWatchdog(t *testing.T, limit time.Duration) (stopFn func()) {
 					s := string(buf[:n])
 					mutex := strings.Contains(s, "sync.(*Mutex).Lock") || strings.Contains(s, "sync.(*RWMutex)")
 					fmt.Printf("\nVERIF-STALL no progress for %v of real time (goroutine parked on a mutex: %v)\n%s\n", limit, mutex, s[:min(len(s), 60000)])
+					if mutex {
+						os.Exit(4) // a goroutine waits for a mutex and nothing else moves: "mutex left held" where the check says so
+					}
 					os.Exit(3)
 				}
 			}
